@@ -67,19 +67,21 @@ Definition encode_extent (version sector : N) (r : rec) : list N :=
   let d := serialize version r in
   if has_token version then stamp version sector d else d.
 
-(* parse_record on a head block: key, value_len, timestamp, expiry *)
-Definition parse_head (version : N) (data : list N) : option (list N * N * N * N) :=
-  if Nat.ltb (length data) 6 then None
+(* parse_record on a head block: key, value_len, timestamp, expiry.
+   Outer None = a slice expression of the Rust code would be out of range (panic);
+   Some None = parse_record returns None. *)
+Definition parse_head (version : N) (data : list N) : option (option (list N * N * N * N)) :=
+  if Nat.ltb (length data) 6 then Some None
   else
     let key_len := N.to_nat (u16_at data 4) in
     let fixed := if has_expiry version then 24%nat else 16%nat in
-    if Nat.ltb (length data) (6 + key_len + fixed) then None
+    if Nat.ltb (length data) (6 + key_len + fixed) then Some None
     else
-      let key := sub data 6 key_len in
-      let vlen := u64_at data (6 + key_len) in
-      let ts := u64_at data (6 + key_len + 8) in
-      let exp := if has_expiry version then u64_at data (6 + key_len + 16) else 0 in
-      Some (key, vlen, ts, exp).
+      match sub_opt data 6 key_len, sub_opt data (6 + key_len) 8, sub_opt data (6 + key_len + 8) 8,
+            (if has_expiry version then sub_opt data (6 + key_len + 16) 8 else Some []) with
+      | Some key, Some vlen, Some ts, Some exp => Some (Some (key, le_num vlen, le_num ts, le_num exp))
+      | _, _, _, _ => None
+      end.
 
 (* ---- retirement markers ---- *)
 Definition DELETED_TAG : list N := [0; 68; 69; 76; 69; 84; 69; 68].    (* "\0DELETED" *)
